@@ -2,7 +2,11 @@
  * C19 malformed-file harness: opens byte strings with the PUBLIC API of the real library and walks
  * everything an application can ask about the file.
  *
- *   usage: c19_open <request-file> <output-prefix> [alarm-seconds] [RLIMIT_AS in MiB, 0 = none]
+ *   usage: c19_open <request-file> <output-prefix> [alarm-seconds] [RLIMIT_AS in MiB, 0 = none] [fork: 1 (default) | 0]
+ *          With fork = 1 (single rank only) every request runs in a forked child of the initialised MPI
+ *          process, so that a crash, a sanitizer abort or a timeout is an answer line:
+ *              CRASH signal=<n>|exit=<code> | <identifying lines of the sanitizer report on the child's stderr>
+ *              TIMEOUT
  *          c19_open --f10                    (witness F10: ncmpi_def_var(..., varidp = NULL))
  *
  *   request line : <path>
@@ -28,6 +32,8 @@
 #include <sys/stat.h>
 #include <sys/time.h>
 #include <sys/resource.h>
+#include <sys/wait.h>
+#include <fcntl.h>
 #include <mpi.h>
 #include <pnetcdf.h>
 
@@ -36,7 +42,7 @@ static int rank;
 
 static void on_alarm(int sig) {
     (void)sig;
-    if (out) { fprintf(out, "TIMEOUT\n"); fflush(out); }
+    if (out) { ssize_t r = write(fileno(out), "TIMEOUT\n", 8); (void)r; }     /* the buffered partial answer is dropped */
     _exit(98);
 }
 
@@ -97,9 +103,9 @@ static int do_f10(void) {
 }
 
 int main(int argc, char **argv) {
-    char line[8192], path[4096], outname[4096];
+    char line[8192], path[4096], outname[4096], errname[4200];
     FILE *in;
-    int secs, asmb;
+    int secs, asmb, dofork;
     MPI_Init(&argc, &argv);
     MPI_Comm_rank(MPI_COMM_WORLD, &rank);
     MPI_Comm_set_errhandler(MPI_COMM_WORLD, MPI_ERRORS_RETURN);
@@ -107,18 +113,51 @@ int main(int argc, char **argv) {
     if (argc < 3) { fprintf(stderr, "usage\n"); MPI_Abort(MPI_COMM_WORLD, 2); }
     secs = argc > 3 ? atoi(argv[3]) : 20;
     asmb = argc > 4 ? atoi(argv[4]) : 0;
+    dofork = argc > 5 ? atoi(argv[5]) : 1;
     if (asmb > 0) { struct rlimit rl; rl.rlim_cur = rl.rlim_max = (rlim_t)asmb << 20; setrlimit(RLIMIT_AS, &rl); }
     signal(SIGALRM, on_alarm);
     in = fopen(argv[1], "r");
     snprintf(outname, sizeof outname, "%s.%d", argv[2], rank);
     out = fopen(outname, "w");
+    snprintf(errname, sizeof errname, "%s.err.%d", argv[2], rank);
     if (!in || !out) { fprintf(stderr, "cannot open\n"); MPI_Abort(MPI_COMM_WORLD, 2); }
+    setvbuf(out, NULL, _IOFBF, 1 << 20);     /* an answer line reaches the file whole or not at all */
     while (fgets(line, sizeof line, in)) {
+        pid_t pid = 0;
+        if (sscanf(line, "%4095s", path) != 1) continue;
+        if (dofork) {
+            fflush(out);
+            pid = fork();
+            if (pid > 0) {              /* parent: wait, turn an abnormal end into an answer line */
+                int st = 0, fd, n; char eb[65536];
+                waitpid(pid, &st, 0);
+                if (WIFEXITED(st) && WEXITSTATUS(st) == 0) continue;
+                fseek(out, 0, SEEK_END);
+                if (WIFEXITED(st) && WEXITSTATUS(st) == 98) continue;        /* the child wrote TIMEOUT */
+                if (WIFSIGNALED(st)) fprintf(out, "CRASH signal=%d", WTERMSIG(st));
+                else fprintf(out, "CRASH exit=%d", WEXITSTATUS(st));
+                fd = open(errname, O_RDONLY);
+                n = fd >= 0 ? (int)read(fd, eb, sizeof eb - 1) : 0;
+                if (fd >= 0) close(fd);
+                if (n > 0) {            /* the lines that identify a sanitizer report */
+                    char *p, *sv; int k = 0;
+                    eb[n] = 0;
+                    for (p = strtok_r(eb, "\n", &sv); p && k < 6; p = strtok_r(NULL, "\n", &sv))
+                        if (strstr(p, "ERROR: AddressSanitizer") || strstr(p, "runtime error:") || strstr(p, "SUMMARY:") ||
+                            strstr(p, "ERROR: LeakSanitizer") || strstr(p, "    #0 ") || strstr(p, "    #1 ") || strstr(p, "    #2 ")) { fprintf(out, " | %.300s", p); k++; }
+                }
+                fprintf(out, "\n"); fflush(out);
+                continue;
+            }
+            if (pid == 0) {             /* child: stderr to the per-request file */
+                int fd = open(errname, O_WRONLY | O_CREAT | O_TRUNC, 0644);
+                if (fd >= 0) { dup2(fd, 2); close(fd); }
+            }
+        }
         int ncid = -1, err, fmt = 0, ndims = -1, nvars = -1, ngatts = -1, unlim = -2, i, j, wfn = 0, nrv = -1, cerr;
         char wf[1024], rd[1024]; int rdn = 0;
         MPI_Offset m0 = 0, m1 = 0, hs = -1, he = -1, rs = -1, numrecs = -1;
         struct stat sb; double t0;
-        if (sscanf(line, "%4095s", path) != 1) continue;
         wf[0] = 0; rd[0] = 0;
         sb.st_size = -1; stat(path, &sb);
         ncmpi_inq_malloc_max_size(&m0);
@@ -130,6 +169,7 @@ int main(int argc, char **argv) {
             alarm(0);
             fprintf(out, "ERR %d # fsz=%lld grow=%lld ms=%.0f\n", err, (long long)sb.st_size, (long long)(m1 - m0), now_ms() - t0);
             fflush(out);
+            if (dofork && pid == 0) _exit(0);
             continue;
         }
         ncmpi_inq_malloc_max_size(&m1);
@@ -203,6 +243,7 @@ int main(int argc, char **argv) {
                 (long long)sb.st_size, (long long)(m1 - m0), now_ms() - t0, (long long)hs, (long long)he, (long long)rs, nrv,
                 wfn ? wf : "ok", rdn ? rd : "-", cerr);
         fflush(out);
+        if (dofork && pid == 0) _exit(0);
     }
     fclose(out);
     MPI_Finalize();
